@@ -265,8 +265,38 @@ func (in *Interp) slot(obj *Object, path []PathElem) (get func() Value, set func
 	if len(path) == 0 {
 		return func() Value { return obj.V }, func(v Value) { obj.V = v }
 	}
-	cur := obj.V
+	return in.slotIn(obj.V, path)
+}
+
+// slotIn navigates path (non-empty) inside the container value cur. A symbolic index in a
+// non-final position (p[t][i] with symbolic t) addresses one slot per element of that array:
+// loads are merged into if-then-else terms, stores are conditional stores into every element.
+func (in *Interp) slotIn(cur Value, path []PathElem) (get func() Value, set func(Value)) {
 	for i := 0; i < len(path)-1; i++ {
+		if sym := path[i].Sym; sym != nil {
+			arr, ok := cur.(*Array)
+			if !ok || len(arr.E) == 0 {
+				panic(in.unsupported(fmt.Sprintf("symbolic index into %T", cur)))
+			}
+			n := len(arr.E)
+			gets := make([]func() Value, n)
+			sets := make([]func(Value), n)
+			for k := range arr.E {
+				gets[k], sets[k] = in.slotIn(arr.E[k], path[i+1:])
+			}
+			is := func(k int) *term.Term { return term.Eq(sym, term.Const(sym.W, uint64(k))) }
+			return func() Value {
+					res := gets[n-1]()
+					for k := n - 2; k >= 0; k-- {
+						res = in.mergeIte(is(k), gets[k](), res)
+					}
+					return res
+				}, func(v Value) {
+					for k := 0; k < n; k++ {
+						sets[k](in.mergeIte(is(k), v, gets[k]()))
+					}
+				}
+		}
 		cur = child(cur, path[i].I)
 	}
 	last := path[len(path)-1]
@@ -287,6 +317,36 @@ func (in *Interp) slot(obj *Object, path []PathElem) (get func() Value, set func
 		return func() Value { return c.E[last.I] }, func(v Value) { c.E[last.I] = v }
 	}
 	panic(fmt.Sprintf("engine: bad path into %T at %s stack %v", cur, in.Prog.Fset.Position(in.curPos), in.stack))
+}
+
+// mergeIte returns the value "c ? a : b" for scalars and (recursively) arrays/structs of scalars.
+func (in *Interp) mergeIte(c *term.Term, a, b Value) Value {
+	switch x := a.(type) {
+	case *term.Term:
+		if y, ok := b.(*term.Term); ok && x != nil && y != nil && x.W == y.W {
+			if x == y {
+				return x
+			}
+			return term.Ite(c, x, y)
+		}
+	case *Array:
+		if y, ok := b.(*Array); ok && len(x.E) == len(y.E) {
+			r := &Array{E: make([]Value, len(x.E))}
+			for i := range x.E {
+				r.E[i] = in.mergeIte(c, x.E[i], y.E[i])
+			}
+			return r
+		}
+	case *Struct:
+		if y, ok := b.(*Struct); ok && len(x.F) == len(y.F) {
+			r := &Struct{F: make([]Value, len(x.F))}
+			for i := range x.F {
+				r.F[i] = in.mergeIte(c, x.F[i], y.F[i])
+			}
+			return r
+		}
+	}
+	panic(in.unsupported(fmt.Sprintf("symbolic index in a non-final position selecting non-scalar values (%T)", a)))
 }
 
 func child(v Value, i int) Value {
